@@ -125,7 +125,7 @@ STATE_MONITORS = [sm_drain_sad]
 
 
 def run(i):
-    ex = C.explore(SCEN[i], MONITORS, STATE_MONITORS, quick=ck.quick, max_states=None if ck.quick else 300000)
+    ex = C.explore(SCEN[i], MONITORS, STATE_MONITORS, quick=ck.quick, max_states=None if ck.quick else 400000, jobs=0 if ck.quick else ck.jobs)
     return ex.summary()
 
 
@@ -151,7 +151,7 @@ def main():
         replay(ck.args.replay)
     stats, samples = [], []
     cover = collections.Counter()
-    for sc, sm in zip(SCEN, ck.pmap(run, range(len(SCEN)))):
+    for sc, sm in zip(SCEN, (ck.pmap(run, range(len(SCEN))) if ck.quick else map(run, range(len(SCEN))))):
         ck.add_explorer_violations(sm, sc)
         samples += sm['samples'][:1]
         stats.append({k: v for k, v in sm.items() if k not in ('violation_list', 'samples')})
